@@ -1,6 +1,7 @@
 import GV.Lib.Line
 import GV.Model.ChainSyncWrap
 import GV.Gen.ChainSyncEraMaps
+import GV.Lib.CborBytes
 /-
   op:  m <ntc|ntn> <type> <wf> <hl> <blockhex> <tipslot> <tiphash|-> <tipno>
        e2e <ntc|ntn> <i,j,..>                                   (see harness/c22.go)
@@ -15,6 +16,33 @@ def hexN (b : Bytes) : String := toHex (b.map UInt8.ofNat)
 def tipStr (t : Tip) : String :=
   let h := match t.hash with | none => "-" | some h => hexN h
   s!"{t.slot}/{h}/{t.blockNo}"
+
+/-- "exactly one well-formed CBOR item", decided by the shared byte-level machine
+    `GV.Cbor.wfItem` (tied to the CBOR library by C02's correspondence) — replaces the
+    oracle field `wf` of the op line -/
+def wfOne (b : Bytes) : Bool :=
+  let u : GV.Cbor.Bytes := b.map UInt8.ofNat
+  GV.Cbor.wfItem u == .ok u.length
+
+/-- tags in front of an array are skipped by the library when it decodes into a list -/
+def skipTags : Nat → GV.Cbor.Bytes → GV.Cbor.Bytes
+  | 0, b => b
+  | f + 1, b =>
+    match GV.Cbor.readHead b with
+    | .mk 6 ai _ hlen => if ai < 28 then skipTags f (b.drop hlen) else b
+    | _ => b
+
+/-- byte length of the first element when the bytes start with a complete array of at least
+    one element (trailing bytes tolerated), else 0 — `GV.Cbor.childSpans` replaces the oracle
+    field `hl` of the op line -/
+def firstLen (b : Bytes) : Nat :=
+  let u : GV.Cbor.Bytes := skipTags b.length (b.map UInt8.ofNat)
+  match GV.Cbor.readHead u with
+  | .mk 4 _ _ _ =>
+    match GV.Cbor.childSpans u with
+    | some (_, (_, l) :: _, _) => l
+    | _ => 0
+  | _ => 0
 
 /-- block type of fixture block i (harness/util_g5.go g5Blocks: Byron main, Shelley .. Dijkstra) -/
 def fixtureType (i : Nat) : Option Nat := [1, 2, 3, 4, 5, 6, 7, 8][i]?
@@ -37,7 +65,7 @@ def handleM (mode : String) (ty : Nat) (wf : Bool) (hl : Nat) (blk : Bytes) (tip
     | none => { model := "err:construct" }
     | some w =>
       let wire := encRollForwardNtC ty w tip
-      let model := match decRollForwardNtC (fun _ => true) wire with
+      let model := match decRollForwardNtC wfOne wire with
         | none => "err:decode enc=" ++ hexN wire
         | some (ty', blk', tip') => s!"ty={ty'} same={boolStr (blk' == blk)} tip={tipStr tip'} enc={hexN wire}"
       -- property: a block arrives with the same type and byte-identical encoding
@@ -89,7 +117,10 @@ def handle (line : String) : Out :=
   | ["m", mode, ty, wf, hl, blk, slot, hash, no] =>
     if mode ≠ "ntc" ∧ mode ≠ "ntn" then badOp else
     match parseNat? ty, parseBool? wf, parseNat? hl, parseHex? blk, parseNat? slot, parseNat? no with
-    | some ty, some wf, some hl, some blk, some slot, some no =>
+    | some ty, some _wfOracle, some _hlOracle, some blk, some slot, some no =>
+      -- the two oracle fields of the op line are no longer used: both facts are computed
+      let wf := wfOne (toNats blk)
+      let hl := firstLen (toNats blk)
       if hash = "-" then
         if slot ≠ 0 then badOp else handleM mode ty wf hl (toNats blk) { slot := 0, hash := none, blockNo := no }
       else match parseHex? hash with
